@@ -25,6 +25,7 @@ func selftest(bin string, long bool, workers int) int {
 	bad := 0
 	for _, p := range props {
 		spec := Props[p]
+		badBefore := bad
 		digests := map[uint64]string{}
 		for _, gmp := range []int{1, 4, 16} {
 			job := Job{Mode: "batch", Engine: spec.Engine, Property: p, Tier: "quick", SeedBase: 77, Start: 0, Stride: 1, MaxRuns: n,
@@ -57,7 +58,30 @@ func selftest(bin string, long bool, workers int) int {
 				bad++
 			}
 		}
-		fmt.Printf("selftest %s: %d seeds x 3 processes identical\n", p, len(digests))
+		// isolation: the last seed of the batch, run alone in a fresh process, must behave exactly as
+		// it did after n-1 other runs in the same process (process-global state must not leak)
+		{
+			job := Job{Mode: "batch", Engine: spec.Engine, Property: p, Tier: "quick", SeedBase: 77, Start: n - 1, Stride: 1, MaxRuns: 1,
+				Out: filepath.Join(outDir, fmt.Sprintf("%s.alone.jsonl", p))}
+			lines, _, _ := runWorker(bin, job, filepath.Join(outDir, fmt.Sprintf("%s.alone.job.json", p)), 20*time.Minute, 1)
+			ok := false
+			for _, l := range lines {
+				if l.Kind == "run" && l.Result != nil {
+					d := fmt.Sprintf("%s/%d", l.Result.LogDigest, len(l.Result.Violations))
+					if digests[l.Seed] == d {
+						ok = true
+					} else {
+						fmt.Printf("selftest %s seed %d: run alone in a fresh process it differs from the same seed run after %d others (%s vs %s)\n", p, l.Seed, n-1, d, digests[l.Seed])
+					}
+				}
+			}
+			if !ok {
+				bad++
+			}
+		}
+		if bad == badBefore {
+			fmt.Printf("selftest %s: %d seeds x 3 processes identical, isolation ok\n", p, len(digests))
+		}
 	}
 	if bad > 0 {
 		fmt.Printf("selftest FAILED (%d problems)\n", bad)
